@@ -84,13 +84,16 @@ Proof.
   destruct (mcls F m) eqn:Ec, a; rewrite ?mrf_scale, ?mrp_scale, ?mDX_scale, ?Ec; unfold lam; cbn [lengthlike msinp scale_mesh];
     try ring; field; exact H3.
 Qed.
+(* the denominators of the transverse factor, where the class has one *)
+Definition uses_rp (g : gclass) : bool := match g with P2 | C3 | S3 => true | _ => false end.
 Definition fac_ok (m : Mesh) (c : cell) : Prop :=
-  mrp F m (cidx AX c) <> 0 /\ msinp F m (cidx AY c) <> 0.
+  (uses_rp (mcls F m) = true -> mrp F m (cidx AX c) <> 0) /\ (mcls F m = S3 -> msinp F m (cidx AY c) <> 0).
 Lemma mfac_scale (Lc : K) (m : Mesh) a c : Lc <> 0 -> fac_ok m c ->
   mfac F (scale_mesh Lc m) a c = phi_ Lc (mcls F m) a * mfac F m a c.
 Proof.
   intros HL [Hr Hs]. unfold mfac, phi_. change (mcls F (scale_mesh Lc m)) with (mcls F m).
-  destruct (mcls F m), a; rewrite ?mrp_scale; cbn [msinp scale_mesh]; try ring; field; auto.
+  destruct (mcls F m) eqn:Ec, a; rewrite ?mrp_scale; cbn [msinp scale_mesh uses_rp] in *; try ring;
+    try specialize (Hr eq_refl); try specialize (Hs eq_refl); field; auto.
 Qed.
 
 (* the two consistency relations between the powers *)
